@@ -385,6 +385,13 @@ impl ModuleManager {
             imports.remove(name);
         }
 
+        // Drop the import declarations that referenced the deleted module, so that
+        // the per-module declarations and the import graph keep describing the same
+        // relation (a module re-created under the same name starts without importers)
+        for module in self.modules.values_mut() {
+            module.imports.retain(|import| import.from_module != name);
+        }
+
         Ok(())
     }
 
